@@ -1175,6 +1175,7 @@ var ghostSorts = map[string]string{
 	"crc_lo":     "Int",  // hash covers stream [crc_lo, crc_hi) of crc_src
 	"crc_hi":     "Int",
 	"crc_src":    "Int",
+	"sb_len":     "Int", // length of a strings.Builder's contents
 }
 
 // specEnv builds the environment for contract clauses of the frame's function: parameters, captured variables,
